@@ -80,4 +80,10 @@ def gen_literals(quick, seed):
             nums.add(s)
     for s in sorted(nums):
         add("num", B(s), "numeric literal")
+    import itertools as _it
+    for w in ["true", "false", "nil", "null"]:
+        for mask in _it.product([0, 1], repeat=len(w)):
+            add("kw", B("".join(c.upper() if m else c for c, m in zip(w, mask))), "keyword in every letter case")
+    for w in ["tru", "truee", "nill", "nul", "True1", "_true", "fals", "NULLL", "t", "none", "yes"]:
+        add("kw", B(w), "a word that is not a keyword")
     return rows
